@@ -68,6 +68,27 @@ func runC10(c *Ctx) {
 		good, what := false, exprStr(w.Val)
 		if cl, ok := w.Val.(*ssa.Call); ok && cno != nil && staticCallee(cl) == cno {
 			good = true
+			// the private copy has no other use than being stored (nobody else keeps a handle on it or on parts of it)
+			for _, r := range referrers(cl) {
+				switch x := r.(type) {
+				case *ssa.Store:
+					if x.Val == ssa.Value(cl) && x == w.Instr {
+						continue
+					}
+					good, what = false, "a copy that is also used by "+strings.TrimSpace(r.String())
+				case *ssa.DebugRef:
+				default:
+					good, what = false, "a copy that is also used by "+strings.TrimSpace(r.String())
+				}
+			}
+		}
+		// one fresh message per store: the value is created in the innermost loop that contains the store
+		if good {
+			if vi, ok := w.Val.(ssa.Instruction); ok {
+				if lh := innermostLoopHeader(w.Instr.Block()); lh != nil && !lh.Dominates(vi.Block()) {
+					good, what = false, "a message created once outside the loop that stores it for every entry"
+				}
+			}
 		}
 		if al, ok := w.Val.(*ssa.Alloc); ok && al.Heap {
 			// a new message filled by Unpack only
@@ -88,6 +109,11 @@ func runC10(c *Ctx) {
 				}
 			}
 			good = onlyUnpack
+			if good {
+				if lh := innermostLoopHeader(w.Instr.Block()); lh != nil && !lh.Dominates(al.Block()) {
+					good, what = false, "one message allocated outside the loop and stored for every entry (each Unpack rewrites the entries stored before)"
+				}
+			}
 		}
 		c.check(good, key, instrPos(w.Instr), "a fresh private message is stored", "the message stored in the cache is "+what+", not a private deep copy: the caller keeps a reference to the cached message")
 	}
@@ -289,6 +315,35 @@ func runC10(c *Ctx) {
 			c.check(good, "refresh-on-copy@"+funcName(dl), instrPos(doChan), "refresh runs on qCtx.Copy() taken before the goroutine starts", why+": the refresh writes into the context of the query being answered")
 		}
 	}
+
+	// ---------------------------------------------------------------- R6
+	c.rule("R6", "the private copy is taken before the caller gets the response back: saveRespToCache is never called from a goroutine started for it", 2)
+	if save := c.fn(relCachePlugin, "", "saveRespToCache"); save != nil {
+		for _, f := range fns {
+			fn := f
+			eachInstr(f, func(in ssa.Instruction) {
+				ci, ok := in.(ssa.CallInstruction)
+				if !ok || staticCallee(ci) != save {
+					return
+				}
+				key := "store-synchronous@" + funcName(fn)
+				_, isGo := in.(*ssa.Go)
+				_, isDefer := in.(*ssa.Defer)
+				spawned := false
+				if par := fn.Parent(); par != nil {
+					eachInstr(par, func(y ssa.Instruction) {
+						if g, ok := y.(*ssa.Go); ok {
+							if mc, ok := g.Call.Value.(*ssa.MakeClosure); ok && mc.Fn == ssa.Value(fn) {
+								spawned = true
+							}
+						}
+					})
+				}
+				c.check(!isGo && !isDefer && !spawned, key, instrPos(in), "the response is copied into the cache synchronously", "the response is copied into the cache from a goroutine (or deferred): by then the caller and later plugins may already have rewritten it, and what they wrote is what other queries are served")
+			})
+		}
+	}
+
 }
 
 // checkHitID (C10-R3, C03-R5): every cached message that becomes the response carries the id of the current query.
